@@ -7,6 +7,11 @@ _NOTE = ("Trusted: Coq 8.16.1 kernel + vm_compute; the Go harness (generators, p
          "differential evaluation on generated inputs, not by proof; ")
 
 TEXT = {
+    "C04": {
+        "level": "Every operation method of the model is the generic mark wrapper around its unmarked core; theorems (all operands): the result is the stripped run's result carrying exactly the union of the operands' marks, success/failure is unchanged by marking, non-interference of the unmarked result, Equals collects nested marks, SetVal hoists member marks. Paired marked/stripped runs of all operations, SetVal, Convert and 12 stdlib functions are evaluated on the implementation on every run and the marked runs are compared with the model.",
+        "note": _NOTE + "Convert and Function.Call mark propagation: oracle here, theorems in C10 (function framework).",
+        "technique": "Coq proof (generic mark-wrapper theorems instantiated at every operation) + paired-run oracle + model/implementation correspondence by vm_compute",
+    },
     "C06": {
         "level": "Well-formedness is a Gallina predicate (payload kind vs type recursively, tuple/object shape, NFC strings, one marker layer, mark-free duplicate-free correctly-bucketed set members, refinement kind vs type, no optional-attribute annotations). Theorems: primitive constructors and every result of Not/And/Or/LessThan/GreaterThan are well-formed for all operands; tuple/list constructors never invent types. On every run each value returned by ~40 API entry points is judged by the hook, a public-API walk and the model predicate, and the three verdicts must agree.",
         "note": _NOTE + "for most API families the guarantee is the monitor (hook + public walk + model predicate on every returned value), not a theorem (partial).",
